@@ -45,6 +45,12 @@ def cases(tier):
     out.append(dict(prev=0, hops=0, age=0, unk=0, crc=2, life0=1))
     out.append(dict(prev=2, hops=0, age=0, unk=0, crc=0))
     out.append(dict(prev=3, hops=0, age=2, unk=0, crc=1))
+    out.append(dict(prev=0, hops=0, age=2, unk=0, crc=1, ts0=1))
+    out.append(dict(prev=1, hops=1, age=3, unk=0, crc=0, ts0=1, life0=1))
+    # reserved / unassigned bundle processing flags travel unchanged (with and without a primary-block CRC)
+    out.append(dict(prev=0, hops=1, age=0, unk=0, crc=0, flags=0x100008, rep='none'))
+    out.append(dict(prev=1, hops=0, age=1, unk=0, crc=2, flags=0x000080, rep='none'))
+    out.append(dict(prev=0, hops=0, age=0, unk=1, crc=0, flags=0x200300 | 0x4, rep='none'))
     # report-request flags with and without a report-to endpoint
     out.append(dict(prev=1, hops=1, age=0, unk=0, crc=2, flags=0x10040, rep='none'))
     out.append(dict(prev=0, hops=0, age=1, unk=0, crc=1, flags=0x64060, rep='none'))
